@@ -54,7 +54,9 @@ CHECKS = {
                "lookups, DELETE and 'receives nothing further' on the real long polls of a complete node. Expiry stage "
                "(checks/c17_expiry.py): design spec Expiry.tla (TLC exhaustive + liveness); the timer loop of main() on real 1- and "
                "3-node binaries driven through HTTP with the leader stopped/killed; recordings validated by TLC (ExpiryTrace.tla) "
-               "with inferred sweep ticks.", "DESIGN.md §6 C17, §11.2"),
+               "with inferred sweep ticks. Lag stage (checks/c17_lag.py): Lag.tla (roles, applied prefixes, the three routes; TLC "
+               "exhaustive + liveness); one node of a real 3-node network held back (fsm.apply gate / SIGSTOP) and queried as "
+               "follower, leaderless follower, candidate, fresh leader; recordings validated by LagTrace.tla.", "DESIGN.md §6 C17, §11.2"),
     "C01": irc("C01", "K real replicas (different creation times, own output streams) are fed every history through the real "
                "FSM.applyRobustMessage in lock-step and compared byte for byte (ids, data, recipients; full reflection-based "
                "state); histories come from TLC (IRCMC simulation) and the seeded generator and are biased to >=2 pseudo-clients, "
